@@ -283,6 +283,12 @@ def clamps(ctx, w, S, R):
         ni = [i for i, t in enumerate(fo["inputs"]) if t["s"] == "usize"][0] + 1
         bad = c06.uses_outside_min(w, prim, ni)
         has_min = any(cs.callee.endswith("::min") for cs in E.call_sites(prim))
+        if not (has_min and not bad):
+            # a clamp of another shape (`if n > room { room } else { n }`, saturating arithmetic ...): the primitives evaluated for every
+            # position and count incl. 65535 (R12 / R13) decide whether an index can leave the row / range
+            from rules import prims as _pr
+            if (_pr.edits_ok(w, S, R) if "(usize, usize)" in [i_["s"] for i_ in fo["inputs"]] else _pr.scroll_ok(w, S)):
+                has_min, bad = True, []
         ctx.check(has_min and not bad, "R3", prim, "%s uses its count unclamped%s: a parameter of 65535 indexes beyond the row/range" % (prim, (" in " + w.tstr(prim, bad[0][1])) if bad else ""),
                   loc=w.stmt_loc(prim, bad[0][0]) if bad else w.fn_loc(prim), sample={"fn": prim, "unclamped_uses": len(bad)})
     # the enum-carried count of the erase primitive (NextChars(n))
